@@ -17,21 +17,21 @@ PolyFailing(ev) ==
         pb == PerimeterBounds(P, 1000)
     IN  {<<"contain", QueryAt(lo, hi, n)>> :
             n \in {m \in DOMAIN ev.res : ev.res[m] # B(Inside(P, QueryAt(lo, hi, m)))}}
-        \cup (IF ev.sarea = SignedArea2(P) THEN {} ELSE {"signed_area"})
-        \cup (IF ev.area = Area2(P) * ev.count THEN {} ELSE {"area_times_repetition"})
+        \cup (IF ev.sarea = SignedArea2(P) THEN {} ELSE {<<"signed_area">>})
+        \cup (IF ev.area = Area2(P) * ev.count THEN {} ELSE {<<"area_times_repetition">>})
         \cup (IF ev.perim1000 >= pb[1] * ev.count /\ ev.perim1000 <= pb[2] * ev.count + 1
-              THEN {} ELSE {"perimeter_times_repetition"})
+              THEN {} ELSE {<<"perimeter_times_repetition">>})
         \cup (IF ev.area0 = Area2(P) /\ ev.perim0 >= pb[1] /\ ev.perim0 <= pb[2] + 1
-              THEN {} ELSE {"area_or_perimeter"})
+              THEN {} ELSE {<<"area_or_perimeter">>})
 
 GroupFailing(ev) ==
     LET Gp == ev.g.polys
         pts == ev.g.list
-    IN  (IF ev.inside = [i \in DOMAIN pts |-> B(InGroup(Gp, pts[i]))] THEN {} ELSE {"inside"})
-        \cup (IF ev.all = AllInside(Gp, pts) THEN {} ELSE {"all_inside"})
-        \cup (IF ev.any = AnyInside(Gp, pts) THEN {} ELSE {"any_inside"})
-        \cup (IF \A i \in DOMAIN Gp : ev.call[i] = ContainAll(Gp[i], pts) THEN {} ELSE {"contain_all"})
-        \cup (IF \A i \in DOMAIN Gp : ev.cany[i] = ContainAny(Gp[i], pts) THEN {} ELSE {"contain_any"})
+    IN  (IF ev.inside = [i \in DOMAIN pts |-> B(InGroup(Gp, pts[i]))] THEN {} ELSE {<<"inside">>})
+        \cup (IF ev.all = AllInside(Gp, pts) THEN {} ELSE {<<"all_inside">>})
+        \cup (IF ev.any = AnyInside(Gp, pts) THEN {} ELSE {<<"any_inside">>})
+        \cup (IF \A i \in DOMAIN Gp : ev.call[i] = ContainAll(Gp[i], pts) THEN {} ELSE {<<"contain_all">>})
+        \cup (IF \A i \in DOMAIN Gp : ev.cany[i] = ContainAny(Gp[i], pts) THEN {} ELSE {<<"contain_any">>})
 
 Check(ev) == CASE ev.e = "poly" -> PolyFailing(ev)
                [] ev.e = "group" -> GroupFailing(ev)
